@@ -863,6 +863,13 @@ func c15Run(c *Ctx, cs c15Case) {
 		}
 		for _, s := range c15Successors(st) {
 			text := s.st.text()
+			if strings.Contains(text, "&") {
+				// a swap that moves an anchor's definition behind one of its aliases does not yield a YAML document at all
+				// ("unknown anchor"): not a rewriting of the profile, so not a successor
+				if _, err := c15Canon(text); err != nil && strings.Contains(err.Error(), "unknown anchor") {
+					continue
+				}
+			}
 			h := h64(text)
 			owned := int(h%uint64(cs.Parts)) == cs.Part
 			tr := append(append([]string{}, trace...), s.label)
